@@ -192,7 +192,7 @@ def r2_transitions(ctx):
     if L is None:
         raise AnchorLost("Trace::validate: loop over the steps calling evaluate_transition not found")
     want_hi = ("bin", "Sub", ("call", "length", (("arg", 1),)), ("call", "num_transition_exemptions", (("call", "context", (("arg", 2),)),)))
-    ok = lo == ("k", 0) and hi == want_hi and not (_iter_source_names(f, L) & (TRUNCATING | {"rev"} - {"rev"}))
+    ok = lo == ("k", 0) and hi == want_hi and not (_iter_source_names(f, L) & TRUNCATING)
     ctx.ob("R2", "step-range", ok, "steps 0 .. self.length() - air.context().num_transition_exemptions()" if ok else
            "the step range is %s .. %s, not 0 .. length() - num_transition_exemptions()" % (lo, hi), f, rng["at"])
     ok = f.must_cross(f.return_blocks(), cut_blocks=[L["header"]])
